@@ -12,6 +12,7 @@ mod lv;
 mod pod;
 mod token;
 mod macros;
+mod res;
 #[path = "/repo/program-error-derive/src/parser.rs"]
 mod parser;
 #[path = "/repo/program-error-derive/src/macro_impl.rs"]
@@ -84,6 +85,10 @@ fn main() {
         "C13" => (pod::run_c13(&ctx), 400),
         "C16" | "C17" => (token::run(&ctx, &prop), 150),
         "C18" => (macros::run_c18(&ctx), 100),
+        "C05" => (res::run_c05(&ctx), 60),
+        "C06" | "C08" => (res::run_c06_c08(&ctx, &prop), 40),
+        "C07" => (res::run_c07(&ctx), 60),
+        "C12" => (res::run_c12(&ctx), 40),
         "C19" => (macros::run_c19(&ctx), 60),
         "C14" => (pod::run_c14(&ctx), 400),
         _ => {
